@@ -64,6 +64,12 @@ def gen(rng, tier, no, wide=False):
                         for e in oe if e.get("ph") == "X" and "dur" in e and e.get("cat") not in (None, "Trace")})
         for k, (nm, cat) in enumerate(pairs):
             ev.append({"ph": "X", "cat": cat, "name": nm, "pid": host["pid"], "tid": host["tid"], "ts": t0 + 3 * k, "dur": 2})
+    # names that are also category strings of the same file (a record_function("kernel") annotation, an operator called cpu_op)
+    if rng.random() < 0.25:
+        r0 = rng.choice(sorted(case["ranks"]))
+        xs = [e for e in case["ranks"][r0] if e.get("ph") == "X" and e.get("cat") in ("cpu_op", "user_annotation") and not str(e.get("name", "")).startswith("ProfilerStep")]
+        for e in rng.sample(xs, min(len(xs), rng.randint(1, 3))):
+            e["name"] = rng.choice(["kernel", "cpu_op", "cuda_runtime", "user_annotation", "gpu_memcpy"])
     case["params"] = {"ops": ops, "mp": rng.random() < 0.6, "order": rng.sample(range(n), n),
                       "probe": (no % (4 if tier == "quick" else 3)) == 0, "mp_symbols": rng.random() < 0.2, "direct_order": rng.random() < 0.4}
     return case
